@@ -10,9 +10,13 @@ func IndexValue(base *Value, index *Value, span func() errors.Span) (*Value, *Vm
 	switch (*base).Kind() {
 	case ObjectValueKind, AnyObjectValueKind:
 		idx := (*index).(ValueString)
-		fields, i := (*base).Fields()
-		if i != nil {
-			return nil, i
+		// only the data fields can be indexed (`Fields()` holds the builtin members)
+		var fields map[string]*Value
+		switch obj := (*base).(type) {
+		case ValueObject:
+			fields = obj.FieldsInternal
+		case ValueAnyObject:
+			fields = obj.FieldsInternal
 		}
 		val, found := fields[idx.Inner]
 		if !found {
